@@ -22,7 +22,7 @@ Section texit.
     | [] => True
     | Enter a t :: r => N.of_nat (length stk) < lim /\ 0 < t /\ t < 18446744073709551616 /\ wfev r ((a, t) :: stk)
     | Leave t1 :: r => match stk with
-                       | (a, t0) :: stk' => t0 < t1 /\ t1 < 18446744073709551616 /\ wfev r stk'
+                       | (a, t0) :: stk' => t0 <= t1 /\ t1 < 18446744073709551616 /\ wfev r stk'
                        | [] => False
                        end
     | ForkChild :: _ => False
@@ -107,7 +107,7 @@ Section texit.
       rewrite (flush_anc_nf sh a t _ _ (stack s)). cbn [snd]. rewrite app_assoc, Hout. reflexivity.
   Qed.
 
-  Lemma step_leave s hk stk R a t0 t1 : Inv s ((a, t0) :: stk) R -> t0 < t1 -> t1 < 18446744073709551616 ->
+  Lemma step_leave s hk stk R a t0 t1 : Inv s ((a, t0) :: stk) R -> t0 <= t1 -> t1 < 18446744073709551616 ->
     exists s', dstep c (s, true :: hk) (Leave t1) = (s', hk) /\
                Inv s' stk (R ++ [X_rec a t1 (N.of_nat (length stk))]).
   Proof.
